@@ -56,7 +56,21 @@ def _levels(tier):
                                   if _has_form(s)))))
     L.append(('pairs under a def / core patterns, assign', 'list',
               lambda: G.pairs(G.CORE, F1, under=('F',))))
+    # distractors: `o.x = ..`, `o.x += 1`, `o.x`, `d(x=0)`, `{'x': 0}` right before every use
+    for dk in G.DISTRACTORS:
+        L.append(('chains d<=2 / core patterns, distractor %s before every use' % dk,
+                  'list+' + dk,
+                  lambda: _cat(G.chains(0, G.CORE, F1), G.chains(1, G.CORE, F1),
+                               G.chains(2, G.CORE, F1))))
+    L.append(('chains d<=1 / full patterns x all forms, all distractors', 'list+mix',
+              lambda: _cat(G.chains(0, G.FULL, G.FORMS), G.chains(1, G.FULL, G.FORMS))))
     if tier == 'thorough':
+        L.append(('chains d=2 / full patterns, assign, all distractors', 'list+mix',
+                  lambda: G.chains(2, G.FULL, F1)))
+        L.append(('chains d=3 / core patterns, assign, all distractors', 'list+mix',
+                  lambda: G.chains(3, G.CORE, F1)))
+        L.append(('chains d<=2 / core patterns, generator expressions, all distractors',
+                  'gen+mix', lambda: _cat(G.chains(1, G.CORE, F1), G.chains(2, G.CORE, F1))))
         L.append(('chains d=3 / full patterns, assign', 'list',
                   lambda: (s for s in G.chains(3, G.FULL, F1) if not _is_core(s))))
         L.append(('pairs under module / full patterns, assign', 'list',
@@ -105,8 +119,10 @@ def _init():
                   project=jedi.Project(root, smart_sys_path=False), n=0)
 
 
-def _relation(use_path, site, kinds):
+def _relation(use_path, site, kinds, distractor=False):
     """Names the way a wrong answer is wrong (part of the failure class)."""
+    if distractor:
+        return 'distractor-not-the-identifier'
     if site is None:
         return 'not-an-occurrence-of-x'
     if site['role'] in ('load', 'del'):
@@ -131,6 +147,7 @@ def _judge(an, query):
     fails = []
     kinds = an['kinds']
     sites = {tuple(s['pos']): s for s in an['sites']}
+    distractors = {tuple(p) for p in an.get('distractors', ())}
     nq = 0
     classes = set()
     for us in an['uses']:
@@ -155,7 +172,8 @@ def _judge(an, query):
             elif not same_file:
                 bad.append(('scope:other-module', (name, line, col)))
             elif (line, col) not in accepted:
-                bad.append(('scope:%s/%s' % (_relation(us['path'], sites.get((line, col)), kinds),
+                bad.append(('scope:%s/%s' % (_relation(us['path'], sites.get((line, col)), kinds,
+                                                       (line, col) in distractors),
                                              us['symclass']), (name, line, col)))
         base = {'use': pos, 'use_scope': _scope_name(us['path'], kinds),
                 'symtable_says': us['symclass'],
@@ -365,7 +383,7 @@ def run(ctx):
         'levels_completed': done, 'exhaustive': exhaustive, 'samples': samples[:6],
         'pattern_hits': dict(sorted(hits.items())),
         'alphabet': {'kinds': 'M F C L G', 'patterns': G.FULL, 'core_patterns': G.CORE,
-                     'forms': G.FORMS},
+                     'forms': G.FORMS, 'distractors': G.DISTRACTORS},
     })
     ctx.assumptions += [
         'configuration `stubs`; target interpreter = the harness interpreter (CPython 3.12)',
